@@ -445,6 +445,7 @@ func hexes(bs [][]byte) []string {
 }
 
 func runC03(c *fw.Ctx) {
+	runC03Limit(c)
 	thorough := c.Tier == "thorough"
 	maxDepth := 2
 	if thorough {
@@ -790,6 +791,16 @@ func runC03(c *fw.Ctx) {
 }
 
 func replayC03(raw json.RawMessage) (string, bool) {
+	var fam struct {
+		Family string       `json:"family"`
+		Case   c03LimitCase `json:"case"`
+	}
+	if json.Unmarshal(raw, &fam) == nil && fam.Family == "c03limit" {
+		if v := c03LimitEval(fam.Case); v != nil {
+			return v.Rule + ": " + v.Detail, true
+		}
+		return "implementation agrees with the reference on this limit change", false
+	}
 	var r struct {
 		Case c03Case `json:"case"`
 	}
